@@ -347,89 +347,155 @@ def asClosestCanonical (A : Aff Int) (shape : List Nat) (d : DimInfo) (R : List 
 /-! ### image state: the data object versus the `get_fdata` cache
 
   nibabel/dataobj_images.py:226-417 (`get_fdata`, `uncache`) and the three operations of this
-  property, which all take the voxels from `self.dataobj` (spatialimages.py `__getitem__`:
-  `self.img.dataobj[slicer]`; `as_reoriented`: `np.asanyarray(self.dataobj)`), never from
-  `self._fdata_cache`.
+  property, which take the voxels from `self.dataobj` (spatialimages.py `__getitem__`:
+  `self.img.dataobj[slicer]`; `as_reoriented`: `np.asanyarray(self.dataobj)`) — WHERE an operation
+  reads its voxels is a parameter `Src` of the model (the property holds for `Src.dataobj` and fails
+  for `Src.cache`); which of the two the code of this run uses is regenerated from the AST
+  (`srcOfAttrs` on Generated/C05.lean).
 
-  Values are *element numbers of the data object as the image was created/loaded* (C order): the
-  data object of a fresh image is `range n`.  A caller can change the data object only through an
-  array that IS the data object: `np.asanyarray(self._dataobj, dtype=dt)` returns the array itself
-  exactly when the image is an array image whose array already has the (native) floating dtype
-  `dt`; a proxy always reads a fresh array from the file.  The only in-place edit modelled is the
-  C-order reversal of the returned array (`a[...] = a.ravel()[::-1].reshape(a.shape)`), which keeps
-  every value identifiable.  External (not modelled): the numerical rounding of a cast to `dt` — a
-  cache entry `k` stands for "element `k` rendered in dtype `dt`". -/
+  The model is generic in the type `α` of voxel values.  `cast dt v` is the rendering of value `v` in
+  floating dtype `dt` (IEEE rounding: EXTERNAL, a parameter — the theorems hold for every `cast`).
+  A caller can change the data object only through an array that IS the data object:
+  `np.asanyarray(self._dataobj, dtype=dt)` returns the array itself exactly when the image is an
+  array image whose array already has the (native) floating dtype `dt`; a proxy always reads a fresh
+  array from the file.  An in-place edit of the array returned by `get_fdata` is an ARBITRARY
+  function on its contents (permutation, overwrite, ...). -/
 
 /-- floating dtypes `get_fdata(dtype=...)` is called with -/
 inductive FD where
   | f2 | f4 | f8
   deriving Repr, DecidableEq, Inhabited
 
-/-- `self._fdata_cache`: its dtype, which data element each entry renders, and whether the cached
-    array is the data object itself -/
-structure FCache where
+/-- where an operation takes the voxel values from -/
+inductive Src where
+  | dataobj      -- `self.dataobj` / `self.img.dataobj`
+  | cache        -- the `get_fdata` cache when it is filled (whatever its dtype), else the data object
+  deriving Repr, DecidableEq, Inhabited
+
+/-- `self._fdata_cache`: its dtype, its contents, and whether the cached array is the data object itself -/
+structure FCache (α : Type) where
   dt    : FD
-  vals  : List Nat
+  vals  : List α
   alias : Bool
   deriving Repr, DecidableEq
 
-structure ImgSt where
+structure ImgSt (α : Type) where
   proxy : Bool               -- `is_proxy(self._dataobj)`
   arrFD : Option FD          -- array images: the floating dtype of the array, if it has a native one
-  data  : List Nat           -- contents of the data object (what `np.asanyarray(img.dataobj)` gives)
-  cache : Option FCache
+  data  : List α             -- contents of the data object (what `np.asanyarray(img.dataobj)` gives), C order
+  cache : Option (FCache α)
   deriving Repr, DecidableEq
 
 /-- the calls a user makes on an image before the operation under test -/
-inductive HStep where
-  | getFdata (dt : FD) (fill edit : Bool)   -- `a = img.get_fdata(dtype=dt, caching='fill'|'unchanged')`, then optionally reverse `a` in place
-  | uncache                                  -- `img.uncache()`
-  deriving Repr, DecidableEq
+inductive HStep (α : Type) where
+  /-- `a = img.get_fdata(dtype=dt, caching='fill'|'unchanged')`, then optionally `a[...] = edit(a)` in place -/
+  | getFdata (dt : FD) (fill : Bool) (edit : Option (List α → List α))
+  /-- `img.uncache()` -/
+  | uncache
 
-def ImgSt.init (proxy : Bool) (arrFD : Option FD) (n : Nat) : ImgSt := ⟨proxy, arrFD, List.range n, none⟩
+/-- apply an optional in-place edit -/
+def applyEdit {α : Type} : Option (List α → List α) → List α → List α
+  | none, l => l
+  | some e, l => e l
+
+/-- a fresh image whose data object holds `range n` (element numbers, as the driver prints them) -/
+def ImgSt.init (proxy : Bool) (arrFD : Option FD) (n : Nat) : ImgSt Nat := ⟨proxy, arrFD, List.range n, none⟩
+
+section imgst
+variable {α : Type}
 
 /-- does `np.asanyarray(self._dataobj, dtype=dt)` return the data object itself? -/
-def ImgSt.aliases (s : ImgSt) (dt : FD) : Bool := !s.proxy && s.arrFD == some dt
+def ImgSt.aliases (s : ImgSt α) (dt : FD) : Bool := !s.proxy && s.arrFD == some dt
 
 /-- dataobj_images.py:373-376: cache miss — `data = np.asanyarray(self._dataobj, dtype=dtype)`;
     `if caching == 'fill': self._fdata_cache = data`; the caller may then edit `data` -/
-def ImgSt.fresh (s : ImgSt) (dt : FD) (fill edit : Bool) : ImgSt :=
+def ImgSt.fresh (cast : FD → α → α) (s : ImgSt α) (dt : FD) (fill : Bool) (edit : Option (List α → List α)) :
+    ImgSt α :=
   let al := s.aliases dt
-  { s with data := if edit && al then s.data.reverse else s.data,
-           cache := if fill then some ⟨dt, if edit then s.data.reverse else s.data, al⟩ else s.cache }
+  let arr := applyEdit edit (if al then s.data else s.data.map (cast dt))
+  { s with data := if al then arr else s.data,
+           cache := if fill then some ⟨dt, arr, al⟩ else s.cache }
 
 /-- `a = img.get_fdata(dtype=dt, caching=...)` (dataobj_images.py:363-376), then optionally the edit -/
-def ImgSt.getFdata (s : ImgSt) (dt : FD) (fill edit : Bool) : ImgSt :=
+def ImgSt.getFdata (cast : FD → α → α) (s : ImgSt α) (dt : FD) (fill : Bool) (edit : Option (List α → List α)) :
+    ImgSt α :=
   match s.cache with
   | some c =>
     if c.dt = dt then          -- dataobj_images.py:367-369: the cache array itself is returned
-      if edit then { s with cache := some { c with vals := c.vals.reverse },
-                            data := if c.alias then s.data.reverse else s.data }
-      else s
-    else s.fresh dt fill edit
-  | none => s.fresh dt fill edit
+      { s with cache := some { c with vals := applyEdit edit c.vals },
+               data := if c.alias then applyEdit edit c.vals else s.data }
+    else s.fresh cast dt fill edit
+  | none => s.fresh cast dt fill edit
 
-def ImgSt.step (s : ImgSt) : HStep → ImgSt
+def ImgSt.step (cast : FD → α → α) (s : ImgSt α) : HStep α → ImgSt α
   | .uncache => { s with cache := none }
-  | .getFdata dt fill edit => s.getFdata dt fill edit
+  | .getFdata dt fill edit => s.getFdata cast dt fill edit
 
-def ImgSt.run (s : ImgSt) (h : List HStep) : ImgSt := h.foldl ImgSt.step s
+def ImgSt.run (cast : FD → α → α) (s : ImgSt α) (h : List (HStep α)) : ImgSt α := h.foldl (ImgSt.step cast) s
+
+/-- the array an operation reading from `src` sees -/
+def ImgSt.source (s : ImgSt α) : Src → List α
+  | .dataobj => s.data
+  | .cache => match s.cache with
+    | some c => c.vals
+    | none => s.data
 
 /-- the voxel values an operation with gather `srcs` (source element number of every output voxel)
-    produces on an image in state `s`: read from the DATA OBJECT -/
-def ImgSt.values (s : ImgSt) (srcs : List Nat) : List Nat := srcs.map (fun k => s.data.getD k 0)
+    produces on an image in state `s` when it reads its voxels from `src` -/
+def ImgSt.values [Inhabited α] (src : Src) (s : ImgSt α) (srcs : List Nat) : List α :=
+  srcs.map (fun k => (s.source src).getD k default)
 
-/-- what the data object holds after a history, computed WITHOUT any cache bookkeeping: only an
-    edit of `get_fdata(dtype=dt)` on an array image whose array has dtype `dt` reaches the data -/
-def dataSpec (proxy : Bool) (arrFD : Option FD) : List HStep → List Nat → List Nat
+/-- what the data object holds after a history, computed WITHOUT any cache bookkeeping and without any
+    cast: only an edit of `get_fdata(dtype=dt)` on an array image whose array has dtype `dt` reaches
+    the data -/
+def dataSpec (proxy : Bool) (arrFD : Option FD) : List (HStep α) → List α → List α
   | [], d => d
-  | .getFdata dt _ true :: r, d => dataSpec proxy arrFD r (if !proxy && arrFD == some dt then d.reverse else d)
-  | _ :: r, d => dataSpec proxy arrFD r d
+  | .getFdata dt _ edit :: r, d => dataSpec proxy arrFD r (if !proxy && arrFD == some dt then applyEdit edit d else d)
+  | .uncache :: r, d => dataSpec proxy arrFD r d
 
 /-- cache bookkeeping invariant: a cache is flagged as the data object exactly when its dtype is the
     array's own, and then its contents are the data object's -/
-def ImgSt.WF (s : ImgSt) : Prop :=
+def ImgSt.WF (s : ImgSt α) : Prop :=
   ∀ c, s.cache = some c → c.alias = s.aliases c.dt ∧ (c.alias = true → c.vals = s.data)
+
+/-- an edit that only rearranges / duplicates / drops values already in the array -/
+def HStep.Rearranges : HStep α → Prop
+  | .getFdata _ _ (some e) => ∀ l x, x ∈ e l → x ∈ l
+  | _ => True
+
+end imgst
+
+/-- number of elements of an array of shape `shape` -/
+def prodN : List Nat → Nat
+  | [] => 1
+  | n :: ns => n * prodN ns
+
+/-- names through which the cached floating-point rendering of an image's data is reached
+    (dataobj_images.py) -/
+def cacheNames : List String := ["_fdata_cache", "_data_cache", "get_fdata", "get_data", "in_memory", "uncache"]
+
+/-- the value source of a function, from the attribute names it touches on the image (regenerated from the
+    AST on every run): any cache accessor → `cache`; else `dataobj` if it reads `dataobj`; else unknown -/
+def srcOfAttrs (attrs : List String) : Option Src :=
+  if attrs.any (fun a => cacheNames.contains a) then some .cache
+  else if attrs.contains "dataobj" then some .dataobj
+  else none
+
+/-- IEEE round-to-nearest-even of an integer to a floating format with `p` significand bits (exponent
+    range ignored): the concrete `cast` used by the counterexample for `Src.cache` -/
+def roundBits (p : Nat) (v : Int) : Int :=
+  let a := v.natAbs
+  if a < 2 ^ p then v else
+    let e := a.log2 + 1 - p
+    let q := a / 2 ^ e
+    let r := a % 2 ^ e
+    let q' := if r > 2 ^ (e - 1) || (r == 2 ^ (e - 1) && q % 2 == 1) then q + 1 else q
+    (if v < 0 then -1 else 1) * ((q' * 2 ^ e : Nat) : Int)
+
+def castInt : FD → Int → Int
+  | .f2 => roundBits 11
+  | .f4 => roundBits 24
+  | .f8 => roundBits 53
 
 /-- the 48 signed permutations of three axes -/
 def allOrnts3 : List Ornt :=
